@@ -48,6 +48,9 @@ pub fn exec(ctx: &mut Ctx, case: &Case) {
                 let h: Vec<&str> = idx.iter().map(|&i| OPS[i]).collect();
                 let ht = h.join("\n");
                 ctx.evals += 1;
+                if ctx.want_sample() {
+                    ctx.note_sample(Case::new("hist").arg(s(0)).arg(&ht).num(case.n[0]).num(case.n[1]));
+                }
                 run(ctx, s(0), &ht, case.n[0], case.n[1]);
                 let mut j = 0;
                 while j < len {
